@@ -112,6 +112,9 @@ Rhs(n) == {Id(n), Mk(n, 2, LAMBDA i, j : i + j - 2), Mk(n + 1, 1, LAMBDA i, j : 
 
 DFactor(o) == o \notin DOMAIN fac /\ \E A \in Squares : fac' = Put(fac, o, A) /\ LStep("Factor", "ok", "ok", TRUE)
 
+\* copy construction / assignment of a factorisation object: the target answers for the source's matrix from now on
+DCopy(o) == o \in DOMAIN fac /\ \E o2 \in Objs \ {o} : fac' = Put(fac, o2, fac[o]) /\ LStep("Copy", "ok", "ok", TRUE)
+
 DInspect(o) ==
   o \in DOMAIN fac /\
   LET A == fac[o] R == AlgoLU(A) IN
@@ -139,6 +142,6 @@ DDetLaws(o) ==
            /\ \A p \in DOMAIN fac : fac[p].r = A.r => AlgoLU(Mul(A, fac[p])).det = AlgoLU(A).det * AlgoLU(fac[p]).det)
 
 Init == fac = <<>> /\ out = "ok" /\ last = NoLast
-Next == \E o \in Objs : DFactor(o) \/ DInspect(o) \/ DSolve(o) \/ DDetLaws(o)
+Next == \E o \in Objs : DFactor(o) \/ DCopy(o) \/ DInspect(o) \/ DSolve(o) \/ DDetLaws(o)
 Spec == Init /\ [][Next]_vars
 =============================================================================
